@@ -129,10 +129,7 @@ fn build_input(c: &XformCase) -> Buf {
     let size = 1usize << c.size_log;
     let n = c.pos + size + c.after;
     let mut buf = Buf::zeroed(n, c.blocks, 2);
-    let mut rng = Xs::new(c.seed);
-    for blk in buf.data.iter_mut() {
-        rng.fill(blk);
-    }
+    prims::fill_structured(&mut buf.data, c.seed);
     if c.zero_tail {
         for i in c.pos + c.trunc..c.pos + size {
             for blk in buf.shard_mut(i) {
